@@ -617,3 +617,41 @@ def arm_effects(fn, start, effects, stop_blocks):
         for s2 in fn.succ[b]:
             st.append((s2, acc2))
     return res
+
+
+
+def lifted(fx, f, pred, depth=2, same_adt=None):
+    """Blocks of `f` that *do* what `pred(fn, block, term)` describes — directly, or by calling a crate-local helper in which
+    doing it is unavoidable (every path from the helper's entry to a return passes a block that does it, or an error return).
+    This is what lets a rule stated over `f` survive the extraction of a piece of `f` into a helper."""
+    out = []
+    for b, t in f.calls():
+        if pred(f, b, t):
+            out.append(b)
+            continue
+        if depth <= 0:
+            continue
+        h = fx.local_callee(t)
+        if h is None or h is f:
+            continue
+        if same_adt is not None and h.d.get("impl_adt") != same_adt:
+            continue
+        inner = lifted(fx, h, pred, depth - 1, same_adt)
+        if inner and must_pass(h, [0], inner + list(err_return_blocks(h))):
+            out.append(b)
+    return out
+
+
+def lifted_stmt_blocks(fx, f, stmt_pred, depth=2, same_adt=None):
+    """like `lifted`, for a statement predicate `stmt_pred(fn, stmt)` (e.g. "assigns field X")"""
+    direct = [b for b, i, s_ in f.stmts() if stmt_pred(f, s_)]
+    out = list(dict.fromkeys(direct))
+    if depth > 0:
+        for b, t in f.calls():
+            h = fx.local_callee(t)
+            if h is None or h is f or (same_adt is not None and h.d.get("impl_adt") != same_adt):
+                continue
+            inner = lifted_stmt_blocks(fx, h, stmt_pred, depth - 1, same_adt)
+            if inner and must_pass(h, [0], inner + list(err_return_blocks(h))):
+                out.append(b)
+    return out
